@@ -419,8 +419,11 @@ pub fn check(case: &Case, res: &RunResult, status: &str) -> Vec<(String, String)
     let overlapped = |o: &LOp| {
       o.fut.is_some() && ops.iter().any(|p| is_recv(&p.form) && p.handle == o.handle && p.call > o.call && p.call < o.ret.unwrap_or(usize::MAX))
     };
+    // handles with such a left-out future: contiguity (gap) is not judged on them, order still is
+    let mut holes: BTreeSet<String> = BTreeSet::new();
     for o in rops {
       if overlapped(o) {
+        holes.insert(o.handle.clone());
         continue;
       }
       for v in received_values(o.res.as_ref().unwrap()) {
@@ -439,7 +442,7 @@ pub fn check(case: &Case, res: &RunResult, status: &str) -> Vec<(String, String)
                 format!("{}:order:per-producer-fifo-violated{}", fl, if spmc { *taint } else { "" }),
                 format!("receiver {} got {} after {} but producer {} sent {} first (event {})", rh, v, lv, ph, v, at),
               );
-            } else if spmc && *pos != *lp + 1 {
+            } else if spmc && *pos != *lp + 1 && !holes.contains(rh) {
               fire(
                 format!("{}:order:broadcast-sequence-gap{}", fl, *taint),
                 format!("receiver {} got {} right after {}: not contiguous in the sent sequence (event {})", rh, v, lv, at),
@@ -447,6 +450,77 @@ pub fn check(case: &Case, res: &RunResult, status: &str) -> Vec<(String, String)
             }
           }
           last.insert(ph.as_str(), (*pos, *v));
+        }
+      }
+    }
+  }
+
+  // C03 (broadcast): the sender is held back by every live receiver: when a send of the value at position p of
+  // the sent sequence has RETURNED ok, a receiver that was registered (created before that send was invoked) and is
+  // not closed/dropped (close/drop invoked only after that return, or never) must already have TAKEN position
+  // p − cap — by a receive invoked before the send returned (the cursor store of that receive is what made room).
+  // A clone's start position is the first position it ever received (unknown if it never received anything).
+  if let (Some(c), true) = (cap, spmc && taint.is_empty()) {
+    let mut pos: BTreeMap<u32, usize> = BTreeMap::new();
+    let mut seq: Vec<(u32, usize, usize)> = Vec::new(); // (value, send call, send ret) in send order
+    let mut sends: Vec<&LOp> = ops.iter().filter(|o| is_send(&o.form) && o.ret.is_some()).collect();
+    sends.sort_by_key(|o| if o.fut.is_some() { o.ret.unwrap_or(usize::MAX) } else { o.call });
+    for o in sends {
+      for v in &o.vals {
+        if sent_ok.contains_key(v) {
+          pos.insert(*v, seq.len());
+          seq.push((*v, if o.fut.is_some() { o.first_pending.unwrap_or(o.call) } else { o.call }, o.ret.unwrap()));
+        }
+      }
+    }
+    // receiver lifetimes: (created-at event, closed/dropped-at call event)
+    let mut life: BTreeMap<String, (usize, usize)> = BTreeMap::new();
+    life.insert("r0".into(), (0, usize::MAX));
+    let mut calls: BTreeMap<usize, (usize, crate::prog::Op)> = BTreeMap::new();
+    for (i, e) in evs.iter().enumerate() {
+      match e {
+        Ev::Call { tid, op } => {
+          if matches!(op.name(), "close" | "drop" | "to_async" | "to_sync") {
+            if let Some(l) = life.get_mut(op.arg(1)) {
+              l.1 = l.1.min(i);
+            }
+          }
+          calls.insert(*tid, (i, op.clone()));
+        }
+        Ev::Ret { tid, res: r, .. } => {
+          if let Some((_, op)) = calls.remove(tid) {
+            if op.name() == "clone" && r == "ok" && op.arg(1).starts_with('r') {
+              life.insert(op.arg(2).to_string(), (i, usize::MAX));
+            }
+          }
+        }
+        _ => {}
+      }
+    }
+    'outer: for (rh, (born, gone_at)) in &life {
+      // positions this receiver took: position -> call event of the receive that returned it
+      let mut took: BTreeMap<usize, usize> = BTreeMap::new();
+      for o in ops.iter().filter(|o| is_recv(&o.form) && &o.handle == rh && o.ret.is_some()) {
+        for v in received_values(o.res.as_ref().unwrap()) {
+          if let Some(p) = pos.get(&v) {
+            let at = if o.fut.is_some() { o.first_pending.unwrap_or(o.call) } else { o.call };
+            took.entry(*p).or_insert(at);
+          }
+        }
+      }
+      let start = if rh == "r0" { Some(0) } else { took.keys().next().copied() };
+      let Some(start) = start else { continue };
+      for (p, (v, scall, sret)) in seq.iter().enumerate() {
+        if p < c || p - c < start || *born >= *scall || *gone_at <= *sret {
+          continue;
+        }
+        let q = p - c;
+        if took.get(&q).map_or(true, |at| *at > *sret) {
+          fire(
+            format!("{}:occupancy:send-completed-over-unread-value", fl),
+            format!("send of value {} (position {}) returned ok (event {}) while live receiver {} had not taken position {} (value {}), capacity {}", v, p, sret, rh, q, seq[q].0, c),
+          );
+          break 'outer;
         }
       }
     }
